@@ -30,8 +30,8 @@ EXTENDS FsckPreserve, Json, IOUtils
 
 A == INSTANCE Ext4Abs
 
-VARIABLES l, failed, basefailed, dmgfailed, sbbad, g0uninit, backupok, dmgfacts
-tvars == <<vars, l, failed, basefailed, dmgfailed, sbbad, g0uninit, backupok, dmgfacts>>
+VARIABLES l, failed, basefailed, dmgfailed, sbbad, g0uninit, backupok, dmgfacts, cfinv
+tvars == <<vars, l, failed, basefailed, dmgfailed, sbbad, g0uninit, backupok, dmgfacts, cfinv>>
 
 Tr == ndJsonDeserialize(IOEnv.TRACE)
 
@@ -68,6 +68,13 @@ DamageConfined == (mode = "none" /\ dmg > 0) => failed \cap OwnershipConjuncts =
 (*  DevInodeUninitWipes: group 0 carries INODE_UNINIT under a valid         *)
 (*    descriptor checksum: pass 1 skips the group, the root is "not         *)
 (*    allocated", files are released.                                       *)
+(*  DevCasefoldOpaqueHashFails: the image handed to e2fsck holds a          *)
+(*    casefolded, indexed directory with a name that is not valid UTF-8     *)
+(*    (reader fact cfinv, logged with the run).  The pinned tree cannot     *)
+(*    hash such a name: it reports the index as invalid, clears it, cannot  *)
+(*    rebuild it and leaves the former root block without a checksum tail   *)
+(*    (exit 1 with an inconsistent result; preen: exit 4).  The files must  *)
+(*    still be unchanged.                                                   *)
 (***************************************************************************)
 DefaultBackupReachable(st) ==
     /\ st.geo.gdc > 1
@@ -75,13 +82,17 @@ DefaultBackupReachable(st) ==
     /\ st.geo.first = (IF st.geo.bs = 1024 THEN 1 ELSE 0)
 DevSb == DevSbCsumRefuses /\ sbbad /\ ~backupok /\ exit' = 8 /\ mode' # "p"
 DevG0 == DevInodeUninitWipes /\ g0uninit
+DevCf == DevCasefoldOpaqueHashFails /\ cfinv'
+DevCfExit == DevCf /\ mode' = "p" /\ exit' = 4
 
 Note(name, ok) == ok \/ PrintT(<<"BADLINE", l, name>>)
 Note2(name, ok, dev, devname) == ok \/ (IF dev THEN PrintT(<<"DEVIATION", l, devname>>) ELSE PrintT(<<"BADLINE", l, name>>))
+Note3(name, ok, dev1, devname1, dev2, devname2) ==
+    ok \/ (IF dev1 THEN PrintT(<<"DEVIATION", l, devname1>>) ELSE IF dev2 THEN PrintT(<<"DEVIATION", l, devname2>>) ELSE PrintT(<<"BADLINE", l, name>>))
 FsckChecks ==
     /\ Note2("TreeUnchanged", TreeUnchanged', DevG0, "DevInodeUninitWipes")
-    /\ Note2("ExitOK", ExitOK', DevSb, "DevSbCsumRefuses")
-    /\ Note2("ConsistentAfter", ConsistentAfter', DevG0, "DevInodeUninitWipes")
+    /\ Note3("ExitOK", ExitOK', DevSb, "DevSbCsumRefuses", DevCfExit, "DevCasefoldOpaqueHashFails")
+    /\ Note3("ConsistentAfter", ConsistentAfter', DevG0, "DevInodeUninitWipes", DevCf, "DevCasefoldOpaqueHashFails")
     /\ (ModeScope' \/ PrintT(<<"DIVERGE", l>>))
     /\ (failed' = {} \/ PrintT(<<"FAILED", l, failed'>>))
 Checks ==
@@ -102,7 +113,7 @@ TBase ==
            t  == TreeObs(st)
        IN  tree0' = t /\ tree' = t /\ failed' = f /\ basefailed' = f /\ dmgfailed' = {} /\ cons' = (f = {})
     /\ mode' = "none" /\ exit' = 0 /\ dmgd' = FALSE /\ dch' = FALSE /\ mch' = FALSE /\ lin3' = FALSE /\ dmg' = 0 /\ runs' = 0
-    /\ backupok' = DefaultBackupReachable(Tr[l].st) /\ sbbad' = FALSE /\ g0uninit' = FALSE /\ dmgfacts' = <<FALSE, FALSE>>
+    /\ backupok' = DefaultBackupReachable(Tr[l].st) /\ sbbad' = FALSE /\ g0uninit' = FALSE /\ dmgfacts' = <<FALSE, FALSE>> /\ cfinv' = FALSE
     /\ UNCHANGED repvars
     /\ Checks
 
@@ -110,7 +121,7 @@ TRestore ==
     /\ IsEvent("Restore")
     /\ tree' = tree0 /\ failed' = basefailed /\ cons' = (basefailed = {})
     /\ mode' = "none" /\ exit' = 0 /\ dmgd' = FALSE /\ dch' = FALSE /\ mch' = FALSE /\ lin3' = FALSE /\ dmg' = 0 /\ runs' = 0
-    /\ sbbad' = FALSE /\ g0uninit' = FALSE
+    /\ sbbad' = FALSE /\ g0uninit' = FALSE /\ cfinv' = FALSE
     /\ UNCHANGED <<repvars, tree0, basefailed, dmgfailed, backupok, dmgfacts>>
     /\ Checks
 
@@ -126,7 +137,7 @@ TDamage ==
             /\ sbbad' = dmgfacts[1] /\ g0uninit' = dmgfacts[2] /\ UNCHANGED <<dmgfailed, dmgfacts>>
     /\ DamageContract
     /\ dmg' = dmg + 1
-    /\ UNCHANGED <<repvars, tree0, basefailed, exit, dmgd, dch, mch, lin3, runs, backupok>>
+    /\ UNCHANGED <<repvars, tree0, basefailed, exit, dmgd, dch, mch, lin3, runs, backupok, cfinv>>
     /\ Checks
 
 TFsck ==
@@ -135,7 +146,7 @@ TFsck ==
          /\ r.mode \in Modes
          /\ mode' = r.mode /\ exit' = r.exit
          /\ dmgd' = ~cons                                   \* the image handed to e2fsck was not consistent
-         /\ dch' = (r.dch = 1) /\ mch' = (r.mch = 1) /\ lin3' = (r.lin3 = 1)
+         /\ dch' = (r.dch = 1) /\ mch' = (r.mch = 1) /\ lin3' = (r.lin3 = 1) /\ cfinv' = (Opt(r, "cfinv", 0) = 1)
          /\ CASE r.same = 1 -> UNCHANGED <<tree, failed, cons>>
               [] r.same = 2 -> tree' = tree0 /\ failed' = basefailed /\ cons' = (basefailed = {})
               [] OTHER -> LET f == A!FailedConjuncts(r.st) IN tree' = TreeObs(r.st) /\ failed' = f /\ cons' = (f = {})
@@ -145,7 +156,7 @@ TFsck ==
     /\ FsckChecks
 
 TraceInit ==
-    /\ l = 1 /\ failed = {} /\ basefailed = {} /\ dmgfailed = {} /\ sbbad = FALSE /\ g0uninit = FALSE /\ backupok = FALSE /\ dmgfacts = <<FALSE, FALSE>>
+    /\ l = 1 /\ failed = {} /\ basefailed = {} /\ dmgfailed = {} /\ sbbad = FALSE /\ g0uninit = FALSE /\ backupok = FALSE /\ dmgfacts = <<FALSE, FALSE>> /\ cfinv = FALSE
     /\ tree = {} /\ tree0 = {} /\ cons = TRUE /\ exit = 0 /\ mode = "none" /\ dmgd = FALSE /\ dch = FALSE /\ mch = FALSE /\ lin3 = FALSE
     /\ leaves = <<>> /\ index = <<>> /\ indexed = FALSE /\ cfm = "plain" /\ exts = <<>> /\ kind = "ext" /\ meta = {}
     /\ bitmap = {} /\ freecnt = 0 /\ uninit = FALSE /\ badcsum = {} /\ dmg = 0 /\ runs = 0
